@@ -1,12 +1,15 @@
 /-
 The load-side per-class key cache (C06): `JSON_FIELD_TO_DATACLASS_FIELD[cls]`.
 
-The generated `cls_fromdict` first looks a JSON key up in the per-class cache (`field = json_to_field[json_key]`, fast
+The generated `cls_fromdict` first looks a JSON key up in the per-class table (`field = json_to_field[json_key]`, fast
 path); on a miss it resolves the key (exact field name, else the key transform and the case-insensitive match) and
-stores the outcome — the field, or `ExplicitNull` for a key that belongs to no field — so that later calls take the
-fast path.  Since repair 4bdd4a1 an unknown key is *not* stored when the class rejects unknown keys
-(`raise_on_unknown_json_key`), because the rejection has to happen on every call; `cacheUnknownWhenRaising` switches the
-old behaviour back on for the witness theorem.
+stores a *field* in the table so that later calls take the fast path. A key that belongs to no field is remembered as
+well, but (since repairs 4bdd4a1 / 7fd7207 / its follow-up) never where a function generated for the same class under
+`raise_on_unknown_json_key` could take it for an ignorable key: a strict function remembers nothing about unknown keys and
+rejects them every time, a lenient function keeps them in a set of its own. The model keeps one table per class and lets
+only lenient calls store `unknown` entries in it; a strict call that finds one rejects the key just as it does after
+resolving it afresh — which is the observable behaviour of the separate set. `quirk` switches the behaviour before
+4bdd4a1 (a strict function caching unknown keys) back on for the witness theorem.
 -/
 import DW.Model.Load
 
